@@ -3,6 +3,7 @@
 
 mod c19;
 mod corpus;
+mod fuzz;
 mod inproc;
 mod props;
 
@@ -321,7 +322,7 @@ fn run_check(env: &Env, id: &str, tier: &str, seed: u64) -> i32 {
     out.extra.insert("regression_files_replayed".into(), json!(regress_run));
 
     if out.violations.is_empty() && out.inconclusive.is_none() {
-        if is_corpus_property(id) {
+        if is_corpus_property(id) && std::env::var("VERIF_FUZZ_ONLY").is_err() {
             for round in 0..props::rounds(id, tier) {
                 let plan = props::plan(id, tier, seed, round);
                 out.rule = plan.rule.clone();
@@ -336,7 +337,18 @@ fn run_check(env: &Env, id: &str, tier: &str, seed: u64) -> i32 {
         if id == "C19" {
             c19::run(env, tier, seed, &mut out);
         }
-        inproc::run(env, id, tier, seed, &mut out);
+        if std::env::var("VERIF_FUZZ_ONLY").is_err() {
+            inproc::run(env, id, tier, seed, &mut out);
+        }
+        // Engine C: coverage-guided fuzzing, thorough tier only
+        if tier == "thorough" && out.violations.is_empty() && out.inconclusive.is_none() && std::env::var("VERIF_NO_FUZZ").is_err() {
+            match id {
+                "C01" | "C05" | "C12" | "C16" | "C18" => fuzz::run_generated(env, id, seed, &mut out),
+                "C07" => fuzz::run_static(env, id, "fz_case", seed, &mut out),
+                "C20" => fuzz::run_static(env, id, "fz_macro", seed, &mut out),
+                _ => {}
+            }
+        }
     }
     let wall = start.elapsed().as_secs_f64();
 
